@@ -586,10 +586,14 @@ def c08_matcher(tier, seed):
               '[CH2][CH2]', 'C[C]C', 'C1=CC1', 'OO', 'N#N', '[OH]', 'C1CCC1', 'C12CC1C2', 'c1ccccc1', 'CC(C)=O']
     if tier == 'quick':
         smiles = smiles[:18]
+    makers = ['Chem.MolFromSmiles(%r)' % s for s in smiles]
+    # molecules handed over with SOME hydrogens already explicit (isotope-labelled H, hydrogens added on selected atoms only, all explicit)
+    makers += ["Chem.MolFromSmiles('[2H]CC')", "Chem.AddHs(Chem.MolFromSmiles('CCO'), onlyOnAtoms=[0])", "Chem.AddHs(Chem.MolFromSmiles('C=CO'), onlyOnAtoms=[2])",
+               "Chem.AddHs(Chem.MolFromSmiles('CC=O'))"]
     mols = []
-    for s in smiles:
-        m = Chem.AddHs(Chem.MolFromSmiles(s))
-        mols.append((s, m))
+    for mk in makers:
+        m = Chem.AddHs(eval(mk, {'Chem': Chem}))
+        mols.append((mk, m))
     ops = {'>': lambda a, b: a > b, '<': lambda a, b: a < b, '>=': lambda a, b: a >= b, '<=': lambda a, b: a <= b, '=': lambda a, b: a == b}
     symbols = ['C', 'O', 'N', 'H', '$', 'X', '&']
     prefixes = [None, 'ringatom', 'nonringatom', 'allylic', 'aromatic', 'nonaromatic']
@@ -734,14 +738,14 @@ def c08_matcher(tier, seed):
                                 if type_ok(t2, o) and bond_ok(bk, b):
                                     want.append((a.GetIdx(), o.GetIdx()))
                 try:
-                    got = [tuple(x) for x in q.GetQueryMatches(Chem.MolFromSmiles(smi))]
+                    got = [tuple(x) for x in q.GetQueryMatches(eval(smi, {'Chem': Chem}))]
                 except Exception as e:    # noqa
                     got = 'raised %s' % type(e).__name__
                 if got == 'raised' or sorted(got) != sorted(want):
                     if len(viol) < 15:
                         viol.append({'id': 'match-%d' % len(viol), 'input': {'fragment': text, 'molecule': smi}, 'observed': got if isinstance(got, str) else sorted(got),
                                      'expected': sorted(want),
-                                     'script': "from rdkit import Chem\nfrom pgradd.RINGParser.Reader import Read\nprint(Read(%r).GetQueryMatches(Chem.MolFromSmiles(%r)))  # expected %r\n" % (text, smi, sorted(want))})
+                                     'script': "from rdkit import Chem\nfrom pgradd.RINGParser.Reader import Read\nprint(Read(%r).GetQueryMatches(%s))  # expected %r\n" % (text, smi, sorted(want))})
             if len(samples) < 4 and (c1 or t2):
                 samples.append(text)
     return {'name': 'brute-force-matcher', 'evaluations': n, 'distinct_nontrivial': distinct, 'violations': viol, 'samples': samples,
@@ -846,6 +850,14 @@ def c04_mixtures(tier, seed):
         ms = ms if tier != 'quick' else rnd.sample(ms, min(14, len(ms)))
         single = {s: S.real_descriptors(lib, s) for s in ms}
         pairs = [(a, b) for a in ms for b in ms] if tier != 'quick' else [(a, b) for a in ms for b in rnd.sample(ms, 4)] + [(a, a) for a in ms]
+        if name not in S.SURFACE:
+            # ring-bearing components in both orders (a component's rings must not influence how the other's rings are judged)
+            forced = [('C1CCOCC1', 'c1ccccc1'), ('c1ccccc1', 'C1CCOCC1'), ('C1CC1', 'C1CC1'), ('C1CCCCC1', 'c1ccccc1'), ('C1CCCC1', 'Cc1ccccc1'), ('c1ccccc1', 'c1ccccc1')]
+            for a, b in forced:
+                for x in (a, b):
+                    if x not in single:
+                        single[x] = S.real_descriptors(lib, x)
+            pairs = forced + pairs
         for a, b in pairs:
             n += 1
             got = S.real_descriptors(lib, a + '.' + b)
